@@ -78,8 +78,9 @@ func vt(v reflect.Value, depth int) vtree {
 		pairs := []interface{}{}
 		for i := 0; i < v.NumField(); i++ {
 			f := v.Type().Field(i)
-			if f.PkgPath != "" || v.Field(i).IsZero() {
-				continue
+			fv := v.Field(i)
+			if f.PkgPath != "" || fv.IsZero() || ((fv.Kind() == reflect.Slice || fv.Kind() == reflect.Map) && fv.Len() == 0) {
+				continue // nothing decoded into this field (yet)
 			}
 			pairs = append(pairs, []interface{}{f.Name, vt(v.Field(i), depth+1)})
 		}
